@@ -178,6 +178,10 @@ int64_t apply_linear_int64_t(int64_t bitfield, float scale, float offset) {
  *  @param offset Offset to apply.
  */
 double apply_linear_double(double bitfield, float scale, float offset) {
+    if (scale == 1.0f && offset == 0.0f) {
+        return bitfield; /* keeps -0.0 and NaN payloads as they are */
+    }
+
     return scale * bitfield + offset;
 }
 
@@ -190,6 +194,10 @@ double apply_linear_double(double bitfield, float scale, float offset) {
  *  @param offset Offset to apply.
  */
 float apply_linear_float(float bitfield, float scale, float offset) {
+    if (scale == 1.0f && offset == 0.0f) {
+        return bitfield; /* keeps -0.0 and NaN payloads as they are */
+    }
+
     return scale * bitfield + offset;
 }
 
